@@ -1,3 +1,4 @@
 import Model.Encoder
 import Model.Driver
 import Model.Dispatch
+import Model.Lines
